@@ -84,6 +84,14 @@ def gen_cases(ck):
                       "kmin": 0, "kmax": [0, 1][(i // 2) % 2], "border_kmin": 3, "param_mode": "uniform", "angle": float(ck.rng.uniform(0, 2 * math.pi)),
                       "scale": float(10.0 ** ck.rng.uniform(-1, 1)), "shift": [0.0, 0.0], "p_rev": 0.5, "shifts": True, "relabel": bool(i % 2),
                       "fit": "dlite", "method": None, "ne": int(ck.rng.integers(3, 8))})
+    for i in range(4 if ck.tier == "quick" else 24):
+        # curved tissues in small length units (cells of 1e-3 .. 1e-2 coordinate units, as for coordinates in mm or m): nothing in the
+        # inference may depend on an absolute length
+        cases.append({"type": "tissue", "seed": int(ck.rng.integers(1 << 30)), "tissue": ["random", "jitter", "hex"][i % 3],
+                      "sites": int(ck.rng.integers(24, 44)), "subset": None, "min_ridge": 0.004, "mobius": True, "strength": float(ck.rng.uniform(1.0, 2.5)),
+                      "kmin": 2, "kmax": 6, "param_mode": "uniform", "angle": float(ck.rng.uniform(0, 2 * math.pi)),
+                      "scale": float(10.0 ** ck.rng.uniform(-2.5, -1.5)), "shift": [0.0, 0.0], "p_rev": 0.5, "shifts": True, "relabel": bool(i % 2),
+                      "fit": "taubinSVD", "method": [None, "lsq_linear"][i % 2], "ne": None})
     return cases
 
 
